@@ -70,6 +70,15 @@ def run_c08(ctx):
             run_olh(ctx, 'shell', twin_args(ctx, ['-histories', '80', '-blocks', '14'], ['-histories', '300', '-blocks', '24']))]
 
 
+def run_c20(ctx):
+    corpus = os.path.join(ctx['root'], 'corpus', 'C20')
+    if ctx['tier'] == 'quick':
+        args = ['-histories', '600', '-blocks', '24', '-maxtxs', '5', '-corpus', corpus]
+    else:
+        args = ['-histories', '8000', '-blocks', '30', '-maxtxs', '6', '-corpus', corpus]
+    return [run_olh(ctx, 'ons', args)]
+
+
 SHELL_ASSUME = [
     'handlers are abstracted as arbitrary interaction-tree programs; the side conditions of the generic theorems (AllAimed, NoVset, EnvFree, GasBlind, VolDerived) are discharged for the real code by the regenerated fact tables (T3, `decide`) where a static fact exists, and otherwise exercised dynamically by the twin-replica engines',
     'the shell model is tied to app/controller.go by the `shell` engine: every ABCI call of generated histories (with CheckTx calls and restarts mixed in) is re-run by the Lean model with handlers abstracted to their observed writes; block-cache digests, results, index short-circuits, commit write logs (replayed into IAVL against the real application hash) and Info after restarts must agree',
@@ -138,4 +147,23 @@ PROPS = {
         ],
         model_limits='goleveldb durability is exercised (real close/reopen) but process-kill timing inside SaveVersion is IAVL/LevelDB territory and trusted',
     ),
+    'C20': dict(
+        lean_modules=['OLP.Props.C20'], namespaces=['OLP.Props.C20'],
+        required_theorems=['at_most_one_owner', 'create_needs_absent_name', 'subs_follow_parent_partial', 'sub_expires_with_parent_partial',
+                           'subs_follow_parent_one_tx_per_block', 'pending_sub_survives_purchase', 'sub_owner_follows_parent_fails',
+                           'pending_sub_misses_renewal', 'failed_tx_changes_nothing', 'changes_need_owner_or_purchase',
+                           'changes_need_root_owner_partial', 'changes_need_root_owner_reachable_partial', 'stale_sub_changed_by_previous_owner',
+                           'send_pays_beneficiary_keeps_registry', 'purchase_needs_sale_or_expiry', 'purchase_pays_owner_at_least_price',
+                           'expired_purchase_pays_base', 'expiry_exact_create_partial', 'sub_created_with_parent_expiry',
+                           'expiry_exact_renew_partial', 'expiry_exact_purchase_on_sale_partial', 'expiry_exact_purchase_expired_partial',
+                           'expiry_wraps_int64'],
+        run=run_c20, replay=replay_olh('ons'), level='proof',
+        assumptions=[
+            'the ONS model (OLP/Ons/Model.lean) is a hand-written port of the seven run* handlers; it is tied to the code by the `ons` engine: every DeliverTx of every generated history is re-run by the Lean model as a stateless step (decoded registry, committed-key set, balances, fee pool, options, heights, operation -> result class + full post-state) and must agree exactly',
+            'payments are OLT amounts and the transaction signer field is the address that signed: both rules live in Validate, which DeliverTx does not call (S10); the engine probes them through CheckTx (forged owner field, VT currency: must be refused) and never delivers such transactions',
+            'gas metering is layer K: the used gas (or the class of a fee-step failure) observed on the implementation is an input of the model step; URI syntax (net/url.Parse + scheme list) is a boolean input computed by the harness with net/url',
+            'expiry exactness is proved under the explicit hypothesis that the quotient and the new height fit in an int64 (InInt64); outside it the code wraps (KF-C20-3)',
+            'sub-names follow their parent (owner, expiry) only along histories in which every purchase / renew sees all sub-names of its target in the committed tree (histSees): the code does not iterate keys written in the current block (KF-C20-1, KF-C20-2); one-transaction-per-block histories satisfy it unconditionally',
+        ],
+        model_limits='nil and empty addresses are not distinguished (a JSON null owner cannot be produced by the message types\' own Marshal); names are ASCII; the division-by-zero crash for perBlockFees = 0 (not admitted by governance validation, only by a genesis file) is in the model as Err.crash but not executed on the implementation (C18 territory); write order inside one transaction (IAVL shape) is below this abstraction (C01/C09)'),
 }
